@@ -850,9 +850,16 @@ def _parse_source_for_lambda(
 
     # If this is a function, then things are going to be very easy.
     if start_token.string == "def":
-        function_source = _realign_indent(inspect.getsource(ast_source))
-        a_module = ast.parse(function_source)
-        lda = rewrite_func_as_lambda(a_module.body[0])  # type: ignore
+        function_source = inspect.getsource(ast_source)
+        if function_source[:1] in (" ", "\t"):
+            # A nested function or a method: parse it where it stands, as the body of a
+            # dummy block. Removing the indent from every line of the text would also
+            # alter the continuation lines of a multi-line string literal.
+            a_block = ast.parse("if True:\n" + function_source).body[0]
+            function_def = a_block.body[0]  # type: ignore
+        else:
+            function_def = ast.parse(function_source).body[0]
+        lda = rewrite_func_as_lambda(function_def)  # type: ignore
     else:
         # Grab all the lambdas on a single line
         lambdas_on_a_line = defaultdict(list)
